@@ -9,6 +9,13 @@ def H(path, kind=0, status=200, body=b"hello", headers=(), spref=2, maxage=0, cp
               xn(cpref), xbool(compress), xlist([xl(xb(a), xn(b), xb(c)) for a, b, c in tuple_]))
 
 
+def XH(path, sel, behaviours):
+    """extended handler (component pipex.run, harness/src/c04x.rs, Model/CacheX.v): picks one behaviour by the raw value of
+    request header `sel`. behaviours: list of (value, H(...), pad, stream); pad = number of 0x00 filler bytes before the body,
+    stream: 0 none, 1 future without length, 2 future with length."""
+    return xl(xb(path), xb(sel), xlist([xl(xb(v), h, xn(pad), xn(stream)) for v, h, pad, stream in behaviours]))
+
+
 def req(target, method=b"GET", addr=1, headers=(), body=b""):
     return xl(xn(0), xn(addr), xb(method), xb(target), xlist([xl(xb(k), xb(v)) for k, v in headers]), xb(body))
 
